@@ -228,7 +228,7 @@ class NG:
     def classdef(self, d, ind):
         r = self.rnd
         sub = ind + '\t'
-        bases = r.sample(['Base', 'mod.Base', 'Generic[T]', 'Enum'], r.choice([0, 1, 1, 2]))
+        bases = r.sample(['Base', 'mod.Base', 'Generic[T]', 'Enum', 'BaseGeneric', 'NonGeneric[T]', 'models.SqlGeneric', 'GenericBase', 'Generic2[T]', 'MyEnum', 'enum.IntEnum', 'Protocol[T]'], r.choice([0, 1, 1, 2, 3]))
         decos = ''.join('%s@%s\n' % (ind, x) for x in r.sample(['deco', 'dataclass(frozen=True)'], r.choice([0, 0, 1])))
         body = ''
         for _ in range(r.randint(1, 4)):
